@@ -513,6 +513,160 @@ Section Dated.
           exact SS.
   Qed.
 
+  (* ---------------------------------------------------------------- loop A, backwards *)
+
+  (* the last dated line of ls, if any: ls = p ++ d :: q, dated d = Some t, q undated *)
+  Inductive last_dated : list (list N) -> option (list (list N) * Z * list N) -> Prop :=
+  | LD_none ls : (forall u, In u ls -> dated u = None) -> last_dated ls None
+  | LD_some p d t q : dated d = Some t -> (forall u, In u q -> dated u = None) ->
+                      last_dated (p ++ d :: q) (Some (p, t, d)).
+
+  Lemma last_dated_nil ld : last_dated [] ld -> ld = None.
+  Proof.
+    intro LD. inversion LD as [ls U E|p d t q DD U E]; [reflexivity|].
+    destruct p; discriminate.
+  Qed.
+
+  Lemma last_dated_dated_end cur l t ld : last_dated (cur ++ [l]) ld -> dated l = Some t ->
+    ld = Some (cur, t, l).
+  Proof.
+    intros LD D. inversion LD as [ls U E|p d t' q DD U E]; subst.
+    - rewrite (U l) in D by (apply in_or_app; right; left; reflexivity). discriminate.
+    - destruct q as [|x q _] using rev_ind.
+      + apply app_inj_tail in E as [E1 E2]. subst. congruence.
+      + rewrite app_comm_cons, app_assoc in E. apply app_inj_tail in E as [E1 E2]. subst.
+        rewrite (U l) in D by (apply in_or_app; right; left; reflexivity). discriminate.
+  Qed.
+
+  Lemma last_dated_undated_end cur l ld : last_dated (cur ++ [l]) ld -> dated l = None ->
+    last_dated cur ld.
+  Proof.
+    intros LD D. inversion LD as [ls U E|p d t q DD U E]; subst.
+    - constructor. intros u I0. apply U. apply in_or_app. left. exact I0.
+    - destruct q as [|x q _] using rev_ind.
+      + apply app_inj_tail in E as [E1 E2]. subst. congruence.
+      + rewrite app_comm_cons, app_assoc in E. apply app_inj_tail in E as [E1 E2]. subst.
+        constructor; [exact DD|]. intros u I0. apply U. apply in_or_app. left. exact I0.
+  Qed.
+
+  (* what loop A returns when it has walked back to the lines `cur` (the last of which it is
+     inspecting); E = end + 1 of the line the search started from *)
+  Definition loop_a_any (bs : N) (f : file) (cur : list (list N)) (E : N) (after : list (list N))
+             (r : res (Z * line * N)) : Prop :=
+    forall ld, last_dated cur ld ->
+    match ld with
+    | Some (p, t, d) =>
+        exists ln, r = Found (t, ln, lenN (concat p) + lenN d) /\ line_repr bs f ln (lenN (concat p)) d
+    | None => loop_a_spec bs f E after r
+    end.
+
+  Lemma concat_nil_lines ls : wf_lines ls -> lenN (concat ls) = 0 -> ls = [].
+  Proof.
+    intros W Z. destruct ls as [|l ls]; [reflexivity|]. exfalso.
+    pose proof (wf_lines_pos _ W l ltac:(left; reflexivity)). cbn [concat] in Z. rewrite lenN_app in Z. lia.
+  Qed.
+
+  (* the revisit of offset 0 with fo_zero_tried, then forwards from E *)
+  Lemma loop_a_zero bs : 0 < bs -> forall l0 q after fuel E,
+    wf_lines (l0 :: q ++ after) ->
+    (length after + 1 < fuel)%nat ->
+    (forall u, In u q -> dated u = None) ->
+    let f := concat (l0 :: q ++ after) in
+    E = lenN (concat (l0 :: q)) ->
+    match dated l0 with
+    | Some t => exists ln, loop_a dated fuel bs f 0 true E = Found (t, ln, 0 + lenN l0) /\
+                           line_repr bs f ln 0 l0
+    | None => loop_a_spec bs f E after (loop_a dated fuel bs f 0 true E)
+    end.
+  Proof.
+    intros H l0 q after fuel E W FU UQ f EE.
+    destruct fuel as [|fuel]; [lia|]. cbn [loop_a].
+    assert (PL : 0 < lenN l0) by (apply (wf_lines_pos _ W); left; reflexivity).
+    destruct (find_line_at bs [] l0 (q ++ after) 0 H W ltac:(cbn; lia) ltac:(cbn; lia)) as (ln & R & LR).
+    cbn [app] in R, LR. fold f in R, LR. replace (lenN (concat [])) with 0 in * by reflexivity.
+    rewrite R. destruct LR as (LR1 & LR2 & LR3). rewrite LR1.
+    assert (EL : lenN l0 <= E) by (rewrite EE; cbn [concat]; rewrite lenN_app; lia).
+    destruct (dated l0) as [t|] eqn:D.
+    - rewrite LR3. exists ln. split; [do 2 f_equal; lia|]. unfold line_repr. auto.
+    - rewrite LR2. replace (N.max E (0 + lenN l0)) with E by lia.
+      pose proof (loop_a_fwd bs H after (l0 :: q) fuel) as FW.
+      assert (EQ : (l0 :: q) ++ after = l0 :: q ++ after) by reflexivity.
+      rewrite EQ in FW. specialize (FW W ltac:(lia)). cbv zeta in FW. fold f in FW.
+      rewrite <- EE in FW. exact FW.
+  Qed.
+
+  Lemma loop_a_bwd bs : 0 < bs -> forall before l q after fuel fo1 M,
+    wf_lines (before ++ l :: q ++ after) ->
+    (forall u, In u q -> dated u = None) ->
+    (length before + length after + 3 < fuel)%nat ->
+    let f := concat (before ++ l :: q ++ after) in
+    let b := lenN (concat before) in
+    let E := lenN (concat (before ++ l :: q)) in
+    b <= fo1 -> fo1 < b + lenN l -> N.max M (b + lenN l) = E ->
+    loop_a_any bs f (before ++ [l]) E after (loop_a dated fuel bs f fo1 false M).
+  Proof.
+    intros H before. induction before as [|l' before IH] using rev_ind;
+      intros l q after fuel fo1 M W UQ FU f b E L1 L2 ME ld LD.
+    - (* l is the first line of the file *)
+      cbn [app] in *. destruct fuel as [|fuel]; [lia|]. cbn [loop_a].
+      destruct (find_line_at bs [] l (q ++ after) fo1 H W L1 L2) as (ln & R & LR).
+      cbn [app] in R, LR. fold f in R, LR. fold b in R, LR. rewrite R.
+      assert (B0 : b = 0) by reflexivity.
+      destruct LR as (LR1 & LR2 & LR3). rewrite LR1.
+      destruct (dated l) as [t|] eqn:D.
+      + rewrite (last_dated_dated_end [] l t ld LD D). rewrite LR3.
+        exists ln. cbn [concat]. replace (lenN (@nil N)) with 0 by reflexivity. rewrite B0 in *.
+        split; [do 2 f_equal; lia|]. unfold line_repr. auto.
+      + apply (last_dated_undated_end [] l) in LD; [|exact D]. apply last_dated_nil in LD. subst ld.
+        rewrite LR2, ME, B0. replace (1 <? 0) with false by reflexivity.
+        pose proof (loop_a_zero bs H l q after fuel E W ltac:(cbn in FU; lia) UQ) as Z0.
+        cbv zeta in Z0. fold f in Z0. specialize (Z0 eq_refl). rewrite D in Z0. exact Z0.
+    - (* l' precedes l *)
+      destruct fuel as [|fuel]; [lia|]. cbn [loop_a].
+      destruct (find_line_at bs (before ++ [l']) l (q ++ after) fo1 H W L1 L2) as (ln & R & LR).
+      fold f in R, LR. fold b in R, LR. rewrite R.
+      destruct LR as (LR1 & LR2 & LR3). rewrite LR1.
+      assert (WP : forall x, In x (before ++ [l']) -> 0 < lenN x).
+      { intros x IX. apply (wf_lines_pos _ W). apply in_or_app. left. exact IX. }
+      assert (PL' : 0 < lenN l') by (apply WP; apply in_or_app; right; left; reflexivity).
+      assert (BB : b = lenN (concat before) + lenN l').
+      { subst b. rewrite concat_app_len. cbn [concat]. rewrite app_nil_r. reflexivity. }
+      assert (BE : b + lenN l <= E).
+      { subst E b. rewrite concat_app_len. cbn [concat]. rewrite lenN_app. lia. }
+      destruct (dated l) as [t|] eqn:D.
+      + rewrite (last_dated_dated_end _ l t ld LD D). rewrite LR3.
+        exists ln. fold b. split; [do 2 f_equal; lia|]. unfold line_repr. auto.
+      + apply last_dated_undated_end in LD; [|exact D].
+        rewrite LR2. rewrite ME.
+        assert (W' : wf_lines (before ++ l' :: (l :: q) ++ after)).
+        { rewrite <- app_assoc in W. exact W. }
+        assert (F' : concat (before ++ l' :: (l :: q) ++ after) = f).
+        { subst f. rewrite <- app_assoc. reflexivity. }
+        assert (E' : lenN (concat (before ++ l' :: l :: q)) = E).
+        { subst E. rewrite <- app_assoc. reflexivity. }
+        assert (UQ' : forall u, In u (l :: q) -> dated u = None).
+        { intros u [<-|IU]; [exact D|apply UQ; exact IU]. }
+        destruct (N.ltb_spec 1 b) as [B1|B1].
+        * (* step back into l' *)
+          specialize (IH l' (l :: q) after fuel (b - 1) E W' UQ').
+          rewrite F', E' in IH. apply IH; [rewrite app_length in FU; cbn [length] in FU; lia|lia|lia|lia|exact LD].
+        * (* b = 1: l' is a one-byte first line; offset 0 is tried next *)
+          assert (before = []).
+          { apply concat_nil_lines; [|lia].
+            clear - W. induction before as [|x before IHb]; [exact I|].
+            cbn [app wf_lines] in *. destruct W as (A & B & C & W). repeat split; auto.
+            intro NE. apply C. destruct before; discriminate. }
+          subst before. cbn [app] in *.
+          pose proof (loop_a_zero bs H l' (l :: q) after fuel E W' ltac:(cbn in FU; lia) UQ') as Z0.
+          cbv zeta in Z0. rewrite F' in Z0. specialize (Z0 (eq_sym E')).
+          destruct (dated l') as [t|] eqn:D'.
+          -- rewrite (last_dated_dated_end [] l' t ld LD D').
+             destruct Z0 as (ln0 & R0 & LR0). exists ln0. cbn [concat].
+             replace (lenN (@nil N)) with 0 by reflexivity. split; assumption.
+          -- apply (last_dated_undated_end [] l') in LD; [|exact D']. apply last_dated_nil in LD. subst ld.
+             exact Z0.
+  Qed.
+
   (* ---------------------------------------------------------------- observations *)
 
   (* what the printer receives of a Sysline: its instant and the bytes of its lines *)
